@@ -24,6 +24,11 @@ func runC05(c *Ctx, r *Report) {
 	c05R5(c, r, "C05.R5")
 	c05R6(c, r, "C05.R6")
 	c05R7(c, r, "C05.R7")
+	// "matching is not abandoned before the timeout while some route is undecided": an undecided matcher must say
+	// need-more in the one form the router recognises, otherwise the connection is dropped at once
+	c06R3(c, r, "C05.R8")
+	c06R4(c, r, "C05.R9")
+	c06R10(c, r, "C05.R10")
 }
 
 func c05R1(c *Ctx, r *Report, rule string) {
